@@ -22,6 +22,7 @@ import (
 	"github.com/awslabs/ar-go-tools/analysis/backtrace"
 	"github.com/awslabs/ar-go-tools/analysis/config"
 	"github.com/awslabs/ar-go-tools/analysis/dataflow"
+	"github.com/awslabs/ar-go-tools/analysis/escape"
 	"github.com/awslabs/ar-go-tools/analysis/reachability"
 	"golang.org/x/tools/go/callgraph"
 	"golang.org/x/tools/go/ssa/ssautil"
@@ -94,7 +95,22 @@ type ptrRes struct {
 	Ms       int64              `json:"ms"`
 }
 
+type lineLoc struct {
+	Prog  string `json:"prog"`
+	Line  int    `json:"line"`
+	Local bool   `json:"local"` // every memory-accessing instruction of the line is local in every derived context
+	N     int    `json:"n"`     // number of classified instructions on the line
+}
+
+type escRes struct {
+	Lines []lineLoc `json:"lines"`
+	Err   string    `json:"err"`
+	Panic string    `json:"panic"`
+	Ms    int64     `json:"ms"`
+}
+
 type facts struct {
+	Escape    map[string]escRes   `json:"escape"`
 	Dir       string              `json:"dir"`
 	LoadErr   string              `json:"loaderr"`
 	Taint     map[string]taintRes `json:"taint"`
@@ -417,6 +433,124 @@ func runPointer(l loaded, cfgPath string) (res ptrRes) {
 	return
 }
 
+// runEscape computes, for every user function reachable from main or from a goroutine entry, the locality of its
+// memory-accessing instructions in the calling contexts the analysis derives: an arbitrary context for main and
+// for goroutine entry functions, call-site contexts (Resolve) for their callees, merged per function until nothing
+// changes (C14).  A line is reported local only if all of its classified instructions are local in all contexts.
+func runEscape(l loaded, cfgPath string) (res escRes) {
+	res = escRes{Lines: []lineLoc{}}
+	start := time.Now()
+	defer func() {
+		res.Ms = time.Since(start).Milliseconds()
+		if e := recover(); e != nil {
+			res.Panic = fmt.Sprintf("%v\n%s", e, debug.Stack())
+		}
+	}()
+	cfg, err := loadCfg(cfgPath)
+	if err != nil {
+		res.Err = "config: " + err.Error()
+		return
+	}
+	cfg.LogLevel = int(config.ErrLevel)
+	state, err := dataflow.NewInitializedAnalyzerState(l.prog, l.pkgs, quiet(cfg), cfg)
+	if err != nil {
+		res.Err = err.Error()
+		return
+	}
+	if err := escape.InitializeEscapeAnalysisState(state); err != nil {
+		res.Err = err.Error()
+		return
+	}
+	ea := state.EscapeAnalysisState
+	ctxs := map[*ssa.Function]dataflow.EscapeCallContext{}
+	var work []*ssa.Function
+	addRoot := func(f *ssa.Function) {
+		if f == nil || !isUser(f) || !ea.IsSummarized(f) {
+			return
+		}
+		if _, ok := ctxs[f]; ok {
+			return
+		}
+		ctxs[f] = ea.ComputeArbitraryContext(f)
+		work = append(work, f)
+	}
+	for fn := range ssautil.AllFunctions(l.prog) {
+		if !isUser(fn) {
+			continue
+		}
+		if fn.Name() == "main" && fn.Parent() == nil {
+			addRoot(fn)
+		}
+		for _, b := range fn.Blocks {
+			for _, in := range b.Instrs {
+				if g, ok := in.(*ssa.Go); ok {
+					if callees, err := state.ResolveCallee(g, false); err == nil {
+						for c := range callees {
+							addRoot(c)
+						}
+					}
+				}
+			}
+		}
+	}
+	type key struct {
+		prog string
+		line int
+	}
+	nonlocal := map[key]bool{}
+	count := map[key]int{}
+	steps := 0
+	for len(work) > 0 && steps < 10000 {
+		steps++
+		f := work[len(work)-1]
+		work = work[:len(work)-1]
+		loc, sites := ea.ComputeInstructionLocalityAndCallsites(f, ctxs[f])
+		for in, rat := range loc {
+			pp := l.prog.Fset.Position(in.Pos())
+			if !pp.IsValid() {
+				continue
+			}
+			k := key{filepath.Base(filepath.Dir(pp.Filename)), pp.Line}
+			count[k]++
+			if rat != nil {
+				nonlocal[k] = true
+			}
+		}
+		for call, info := range sites {
+			callees, err := state.ResolveCallee(call, false)
+			if err != nil {
+				continue
+			}
+			for c := range callees {
+				if !isUser(c) || !ea.IsSummarized(c) {
+					continue
+				}
+				nc := info.Resolve(c)
+				if old, ok := ctxs[c]; ok {
+					changed, merged := old.Merge(nc)
+					if changed {
+						ctxs[c] = merged
+						work = append(work, c)
+					}
+				} else {
+					ctxs[c] = nc
+					work = append(work, c)
+				}
+			}
+		}
+	}
+	for k, n := range count {
+		res.Lines = append(res.Lines, lineLoc{k.prog, k.line, !nonlocal[k], n})
+	}
+	sort.Slice(res.Lines, func(i, j int) bool {
+		if res.Lines[i].Prog != res.Lines[j].Prog {
+			return res.Lines[i].Prog < res.Lines[j].Prog
+		}
+		return res.Lines[i].Line < res.Lines[j].Line
+	})
+	return
+}
+
 func main() {
 	dir := flag.String("dir", ".", "module directory (one or several generated programs, one package each)")
 	pattern := flag.String("pattern", "./...", "package pattern to load")
@@ -424,8 +558,9 @@ func main() {
 	taintCfgs := flag.String("taint", "", "comma separated config files for taint.Analyze (suffix :rw = load with rewrites)")
 	btCfgs := flag.String("backtrace", "", "comma separated config files for backtrace.Analyze")
 	ptrCfgs := flag.String("pointer", "", "comma separated config files for the pointer / call graph / reachability facts")
+	escCfgs := flag.String("escape", "", "comma separated config files for the escape-analysis locality facts")
 	flag.Parse()
-	f := facts{Dir: *dir, Taint: map[string]taintRes{}, Backtrace: map[string]btRes{}, Pointer: map[string]ptrRes{}}
+	f := facts{Dir: *dir, Taint: map[string]taintRes{}, Backtrace: map[string]btRes{}, Pointer: map[string]ptrRes{}, Escape: map[string]escRes{}}
 	loads := map[bool]*loaded{}
 	get := func(rw bool) loaded {
 		if l, ok := loads[rw]; ok {
@@ -486,6 +621,17 @@ func main() {
 			continue
 		}
 		f.Pointer[name] = runPointer(l, path)
+	}
+	for _, c := range split(*escCfgs) {
+		path := strings.TrimSuffix(c, ":rw")
+		name := strings.TrimSuffix(filepath.Base(path), ".yaml")
+		l := get(false)
+		if l.err != nil {
+			f.LoadErr = l.err.Error()
+			f.Escape[name] = escRes{Lines: []lineLoc{}, Err: "load: " + l.err.Error()}
+			continue
+		}
+		f.Escape[name] = runEscape(l, path)
 	}
 	b, _ := json.Marshal(f)
 	if *out == "-" {
